@@ -1,0 +1,192 @@
+//go:build verif
+
+package tls
+
+import (
+	"crypto/rand"
+	"encoding/json"
+	"fmt"
+	"sync"
+
+	"github.com/zmap/zcrypto/rsa"
+	"github.com/zmap/zcrypto/x509"
+)
+
+// Verification hooks for property C32, second part: what the key exchange does AFTER the parameters were parsed.
+// Add-only; built with -tags verif.
+//
+// ZVC32KxDHEClientStep / ZVC32KxECDHEClientStep run the client step that follows an accepted ServerKeyExchange on the
+// SAME key agreement object: generateClientKeyExchange, ClientKeyExchange.marshal, the handshake-log records of both
+// messages (json.Marshal included) and masterFromPreMasterSecret. A peer chooses the parameter VALUES freely (the
+// signature covers whatever it chooses), so every value the parser lets through must be survivable here.
+// ZVC32KxRSADecrypt hands an RSA ClientKeyExchange to processClientKeyExchange with a REAL private key.
+
+type ZVC32KxGenOut struct {
+	Class string // parse stage: ok (processServerKeyExchange returned nil), err, panic
+	Pan   string
+
+	P, G, Ys []byte // DHE: the parsed parameters
+	Curve    int    // ECDHE
+
+	Gen    string // "", ok, err, panic: generateClientKeyExchange and what follows it
+	GenPan string
+	X      []byte // DHE: the private exponent the client drew
+	Pub    []byte // the client's public value (DHE: Yc as big.Int bytes; ECDHE: its share)
+	PMS    []byte // the pre-master secret
+	CKX    []byte // the marshalled ClientKeyExchange message
+	Master int    // length of the master secret
+	LogErr string // json.Marshal of the log records failed
+}
+
+func zvC32KxAfter(out *ZVC32KxGenOut, vers uint16, suiteID uint16, ka keyAgreement, cfg *Config, ch *clientHelloMsg, sh *serverHelloMsg,
+	cert *x509.Certificate, skx *serverKeyExchangeMsg) {
+	defer func() {
+		if r := recover(); r != nil {
+			out.Gen, out.GenPan = "panic", fmt.Sprint(r)
+		}
+	}()
+	slog := skx.MakeLog(ka)
+	pms, ckx, err := ka.generateClientKeyExchange(cfg, ch, cert)
+	if err != nil {
+		out.Gen = "err"
+		return
+	}
+	out.Gen = "ok"
+	out.PMS = pms
+	clog := ckx.MakeLog(ka)
+	if ckx != nil {
+		out.CKX = ckx.marshal()
+	}
+	for _, l := range []interface{}{slog, clog} {
+		if _, err := json.Marshal(l); err != nil {
+			out.LogErr = err.Error()
+		}
+	}
+	if suite := cipherSuiteByID(suiteID); suite != nil {
+		out.Master = len(masterFromPreMasterSecret(vers, suite, pms, ch.random, sh.random))
+	}
+}
+
+// ZVC32KxDHEClientStep: serverKeyExchangeMsg.unmarshal + (*dheKeyAgreement).processServerKeyExchange of a DHE_RSA
+// suite for a client with InsecureSkipVerify (the signature verdict does not stop the handshake: Class "ok" means
+// dh_p, dh_g, dh_Ys were parsed and 0 < Ys < p), then the client step.
+func ZVC32KxDHEClientStep(vers uint16, msg []byte) (out ZVC32KxGenOut) {
+	defer func() {
+		if r := recover(); r != nil {
+			out = ZVC32KxGenOut{Class: "panic", Pan: fmt.Sprint(r)}
+		}
+	}()
+	ka := dheRSAKA(vers).(*dheKeyAgreement)
+	skx := new(serverKeyExchangeMsg)
+	if !skx.unmarshal(msg) {
+		return ZVC32KxGenOut{Class: "err"}
+	}
+	cfg := &Config{InsecureSkipVerify: true}
+	ch, sh := zvC32KxHellos(vers, nil)
+	ch.vers = vers
+	cert := &x509.Certificate{PublicKey: zvC32KxKey("rsa")}
+	if err := ka.processServerKeyExchange(cfg, ch, sh, cert, skx); err != nil {
+		return ZVC32KxGenOut{Class: "err"}
+	}
+	out.Class = "ok"
+	out.P, out.G, out.Ys = ka.p.Bytes(), ka.g.Bytes(), ka.yTheirs.Bytes()
+	zvC32KxAfter(&out, vers, TLS_DHE_RSA_WITH_AES_128_CBC_SHA, ka, cfg, ch, sh, cert, skx)
+	if out.Gen == "ok" {
+		if ka.xOurs != nil {
+			out.X = ka.xOurs.Bytes()
+		}
+		if ka.yOurs != nil {
+			out.Pub = ka.yOurs.Bytes()
+		}
+	}
+	return out
+}
+
+// ZVC32KxECDHEClientStep: as ZVC32KxECDHEServerKeyExchange (Class "ok": parsed to the end, refused at most by the
+// signature verification), then the client step.
+func ZVC32KxECDHEClientStep(vers uint16, isRSA bool, kt string, sigAlgs []uint16, msg []byte) (out ZVC32KxGenOut) {
+	defer func() {
+		if r := recover(); r != nil {
+			out = ZVC32KxGenOut{Class: "panic", Pan: fmt.Sprint(r)}
+		}
+	}()
+	var ka *ecdheKeyAgreement
+	suite := TLS_ECDHE_ECDSA_WITH_AES_128_CBC_SHA
+	if isRSA {
+		ka = ecdheRSAKA(vers).(*ecdheKeyAgreement)
+		suite = TLS_ECDHE_RSA_WITH_AES_128_CBC_SHA
+	} else {
+		ka = ecdheECDSAKA(vers).(*ecdheKeyAgreement)
+	}
+	skx := new(serverKeyExchangeMsg)
+	if !skx.unmarshal(msg) {
+		return ZVC32KxGenOut{Class: "err"}
+	}
+	cfg := &Config{}
+	ch, sh := zvC32KxHellos(vers, sigAlgs)
+	ch.vers = vers
+	cert := &x509.Certificate{PublicKey: zvC32KxKey(kt)}
+	err := ka.processServerKeyExchange(cfg, ch, sh, cert, skx)
+	if err != nil && ka.verifyError == nil {
+		return ZVC32KxGenOut{Class: "err"}
+	}
+	out.Class = "ok"
+	out.Curve = int(ka.serverParams.CurveID())
+	zvC32KxAfter(&out, vers, suite, ka, cfg, ch, sh, cert, skx)
+	if out.Gen == "ok" && ka.params != nil {
+		out.Pub = ka.params.PublicKey()
+	}
+	return out
+}
+
+var (
+	zvC32RSAOnce sync.Once
+	zvC32RSAKey  *rsa.PrivateKey
+)
+
+// ZVC32KxRSAModulus: the modulus of the fixed RSA key of ZVC32KxRSADecrypt (big-endian).
+func ZVC32KxRSAModulus() []byte {
+	zvC32RSAOnce.Do(func() {
+		k, err := rsa.GenerateKey(rand.Reader, 1024)
+		if err != nil {
+			panic(err)
+		}
+		zvC32RSAKey = k
+	})
+	return zvC32RSAKey.N.Bytes()
+}
+
+// ZVC32KxRSAEncrypt: a genuine encrypted pre-master secret for that key.
+func ZVC32KxRSAEncrypt(pms []byte) []byte {
+	ZVC32KxRSAModulus()
+	ct, err := rsa.EncryptPKCS1v15(rand.Reader, &zvC32RSAKey.PublicKey, pms)
+	if err != nil {
+		return nil
+	}
+	return ct
+}
+
+// ZVC32KxRSADecrypt: clientKeyExchangeMsg.unmarshal + (*rsaKeyAgreement).processClientKeyExchange with a real
+// zcrypto RSA private key (the decryption itself runs). Returns the class (ok / err / panic) and the pre-master secret.
+func ZVC32KxRSADecrypt(vers uint16, msg []byte) (class string, pms []byte, pan string) {
+	defer func() {
+		if r := recover(); r != nil {
+			class, pms, pan = "panic", nil, fmt.Sprint(r)
+		}
+	}()
+	ZVC32KxRSAModulus()
+	ckx := new(clientKeyExchangeMsg)
+	if !ckx.unmarshal(msg) {
+		return "err", nil, ""
+	}
+	ka := rsaKA(vers).(*rsaKeyAgreement)
+	pms, err := ka.processClientKeyExchange(&Config{}, &Certificate{PrivateKey: zvC32RSAKey}, ckx, vers)
+	if err != nil {
+		return "err", nil, ""
+	}
+	ckx.MakeLog(ka)
+	if suite := cipherSuiteByID(TLS_RSA_WITH_AES_128_CBC_SHA); suite != nil {
+		masterFromPreMasterSecret(vers, suite, pms, make([]byte, 32), make([]byte, 32))
+	}
+	return "ok", pms, ""
+}
